@@ -693,7 +693,7 @@ def observe_decisions(info):
     cppf = info["files"].get("cpp", {})
     hdr = [glue.tokenize(t) for p, t in cppf.items() if not p.endswith(".cpp")]
     src = [glue.tokenize(t) for p, t in cppf.items() if p.endswith(".cpp")]
-    jav = [glue.tokenize(t) for p, t in info["files"].get("java", {}).items()]
+    jav = [glue.tokenize(t, lang="java") for p, t in info["files"].get("java", {}).items()]
 
     def anyseq(tl, *seq):
         return any(has_seq(t, *seq) for t in tl)
